@@ -176,28 +176,38 @@ func (e *Engine) lookupNative(fi *FnInfo) *Native {
 					c := e.cellInt(s, subPtr(p, rp))
 					e.store(s, subPtr(p, rp), ts.Const(32, c.val+1))
 				}
+				// happens-before: a writer's Unlock precedes every later Lock/RLock; a reader's RUnlock
+				// precedes every later Lock (readers are not ordered among themselves)
+				e.raceAcquire(s, gi, "rww"+ptrKey(p))
+				if write {
+					e.raceAcquire(s, gi, "rwr"+ptrKey(p))
+				}
 				e.finishCall(s, gi, kind, nil)
 			}}
 	case "(*sync.RWMutex).Unlock", "(*sync.RWMutex).RUnlock":
 		wp := e.structFieldPath(recvElem(fi), "w", "state")
 		rp := e.structFieldPath(recvElem(fi), "readerCount", "v")
 		write := strings.HasSuffix(name, ").Unlock")
-		return visible(func(e *Engine, s *State, gi int, args []Value) Value {
+		n := visible(func(e *Engine, s *State, gi int, args []Value) Value {
 			p := args[0].(Ptr)
 			if write {
 				if e.cellInt(s, subPtr(p, wp)).val == 0 {
 					e.gopanic("fatal error: sync: Unlock of unlocked RWMutex")
 				}
 				e.store(s, subPtr(p, wp), ts.Const(32, 0))
+				e.raceRelease(s, gi, "rww"+ptrKey(p))
 			} else {
 				c := e.cellInt(s, subPtr(p, rp))
 				if c.val == 0 {
 					e.gopanic("fatal error: sync: RUnlock of unlocked RWMutex")
 				}
 				e.store(s, subPtr(p, rp), ts.Const(32, c.val-1))
+				e.raceRelease(s, gi, "rwr"+ptrKey(p))
 			}
 			return nil
 		})
+		n.eager = true
+		return n
 	// ---- sync.WaitGroup (counter in state.v)
 	case "(*sync.WaitGroup).Add", "(*sync.WaitGroup).Done":
 		path := e.structFieldPath(recvElem(fi), "state", "v")
@@ -231,7 +241,7 @@ func (e *Engine) lookupNative(fi *FnInfo) *Native {
 				e.raceAcquire(s, gi, "wg"+ptrKey(subPtr(args[0].(Ptr), path)))
 				e.finishCall(s, gi, kind, nil)
 			}}
-	case "(*sync.Once).Do":
+	case "(*sync.Once).Do-native-disabled": // executed from sync's own SSA (Mutex + atomic models give the exact blocking and happens-before semantics)
 		path := e.structFieldPath(recvElem(fi), "done", "v")
 		return &Native{visible: true, fn: func(e *Engine, s *State, gi int, fi *FnInfo, args []Value, kind retKind) {
 			p := subPtr(args[0].(Ptr), path)
@@ -332,6 +342,51 @@ func (e *Engine) lookupNative(fi *FnInfo) *Native {
 		})
 	case "time.Sleep":
 		return visible(func(e *Engine, s *State, gi int, args []Value) Value { return nil })
+	// ---- reflect (only what goat's RegisterService uses: TypeOf(x), Type.Elem(), Type.Implements(u))
+	// A reflect.Type value is an interface holding *reflect.rtype whose payload is the type's
+	// canonical string, interned in e.rtypes.
+	case "reflect.TypeOf":
+		return simple(func(e *Engine, s *State, gi int, args []Value) Value {
+			x := args[0].(Iface)
+			if x.t == nil {
+				return Iface{}
+			}
+			return e.rtypeVal(x.t)
+		})
+	case "(*reflect.rtype).Elem":
+		return simple(func(e *Engine, s *State, gi int, args []Value) Value {
+			t := e.rtypeOf(args[0])
+			switch u := t.Underlying().(type) {
+			case *types.Pointer:
+				return e.rtypeVal(u.Elem())
+			case *types.Slice:
+				return e.rtypeVal(u.Elem())
+			case *types.Array:
+				return e.rtypeVal(u.Elem())
+			case *types.Map:
+				return e.rtypeVal(u.Elem())
+			case *types.Chan:
+				return e.rtypeVal(u.Elem())
+			}
+			e.gopanic("reflect: Elem of invalid type " + t.String())
+			return nil
+		})
+	case "(*reflect.rtype).Implements":
+		return simple(func(e *Engine, s *State, gi int, args []Value) Value {
+			t := e.rtypeOf(args[0])
+			ui, ok := args[1].(Iface)
+			if !ok || ui.t == nil {
+				e.gopanic("reflect: nil type passed to Type.Implements")
+			}
+			u := e.rtypeOf(ui.v)
+			it, isI := u.Underlying().(*types.Interface)
+			if !isI {
+				e.gopanic("reflect: non-interface type passed to Type.Implements")
+			}
+			return ts.Bool(e.implements(t, it))
+		})
+	case "(*reflect.rtype).String":
+		return simple(func(e *Engine, s *State, gi int, args []Value) Value { return e.rtypeOf(args[0]).String() })
 	// ---- strings
 	case "strings.ToLower", "strings.ToUpper":
 		upper := name == "strings.ToUpper"
@@ -1057,6 +1112,42 @@ func (e *Engine) intrinsic(fi *FnInfo) *Native {
 			}
 			return ts.Const(64, ^uint64(0))
 		})
+	case "vfHeapFieldLen":
+		// vfHeapFieldLen("handler", "streams"): sum of len(field) over every allocated struct whose
+		// named type is called so; -1 when the tree has no such type or field (or none was allocated)
+		return simple(func(e *Engine, s *State, gi int, args []Value) Value {
+			tn, _ := args[0].(string)
+			path, _ := args[1].(string)
+			total, found := 0, false
+			for id := 1; id < len(s.heap); id++ {
+				o := s.heap[id]
+				if o == nil || o.typ == nil {
+					continue
+				}
+				nt, ok := o.typ.(*types.Named)
+				if !ok || nt.Obj().Name() != tn {
+					continue
+				}
+				cur, _, ok := e.peekPath(s, Iface{t: types.NewPointer(o.typ), v: Ptr{obj: id}}, path)
+				if !ok {
+					continue
+				}
+				switch v := cur.(type) {
+				case MapV:
+					found = true
+					if v.obj != 0 {
+						total += len(e.obj(s, v.obj).m.keys)
+					}
+				case Slice:
+					found = true
+					total += v.ln
+				}
+			}
+			if !found {
+				return ts.Const(64, ^uint64(0))
+			}
+			return ts.Const(64, uint64(total))
+		})
 	case "vfMapHas", "vfMapFieldIs":
 		// vfMapHas(x, "path.to.map", key) / vfMapFieldIs(x, path, key, field, want): look into an
 		// internal table by field NAME: -1 when the names do not resolve on this tree, else 0/1.
@@ -1143,7 +1234,7 @@ func (e *Engine) intrinsic(fi *FnInfo) *Native {
 				st, ok := t.Underlying().(*types.Struct)
 				if !ok {
 					if isSet {
-						return nil
+						return ts.False
 					}
 					return ts.Const(64, 0)
 				}
@@ -1155,7 +1246,7 @@ func (e *Engine) intrinsic(fi *FnInfo) *Native {
 				}
 				if idx < 0 {
 					if isSet {
-						return nil
+						return ts.False
 					}
 					return ts.Const(64, 0)
 				}
@@ -1174,13 +1265,13 @@ func (e *Engine) intrinsic(fi *FnInfo) *Native {
 			w, _, ok := intWidth(t)
 			if !ok {
 				if isSet {
-					return nil
+					return ts.False
 				}
 				return ts.Const(64, 0)
 			}
 			if isSet {
 				e.store(s, ptr, e.toW(args[2].(*Term), w, false))
-				return nil
+				return ts.True
 			}
 			return e.toW(e.load(s, ptr).(*Term), 64, false)
 		})
@@ -1367,4 +1458,28 @@ func (e *Engine) peekPath(s *State, x Iface, path string) (Value, types.Type, bo
 		t = st.Field(idx).Type()
 	}
 	return cur, t, true
+}
+
+func (e *Engine) rtypeVal(t types.Type) Value {
+	if e.rtypes == nil {
+		e.rtypes = map[string]types.Type{}
+	}
+	if e.rtypeT == nil {
+		e.rtypeT = types.NewPointer(e.p.pkgs["reflect"].Type("rtype").Type())
+	}
+	k := t.String()
+	e.rtypes[k] = t
+	return Iface{t: e.rtypeT, v: k}
+}
+
+func (e *Engine) rtypeOf(v Value) types.Type {
+	k, ok := v.(string)
+	if !ok {
+		unsup("reflect.Type value outside the model")
+	}
+	t := e.rtypes[k]
+	if t == nil {
+		unsup("reflect.Type %s not interned", k)
+	}
+	return t
 }
